@@ -28,8 +28,8 @@ echo "demo_without: $without"
 # now against /repo
 cd /verif
 git -C /repo apply "$SD/patch.diff" || { echo "RESULT repo-apply-failed"; exit 1; }
-for p in $(bin/gokrb5lint list); do
-  out=$(bin/gokrb5lint check $p -noevidence 2>&1)
+for p in $(${LINT:-bin/gokrb5lint} list); do case " $SEEDCHECK_SKIP " in *" $p "*) continue;; esac
+  out=$(${LINT:-bin/gokrb5lint} check $p -noevidence 2>&1)
   n=$(echo "$out" | grep -c '^VIOLATION')
   if [ "$n" != "0" ]; then echo "DETECTED by $p ($n): $(echo "$out" | grep '^violation' | head -3 | cut -c1-220 | tr '\n' '|')"; fi
 done
